@@ -56,3 +56,6 @@ package core
 
 //@ iface DataSink.OpenSink
 //@ ensures iff(result1 == nil, result0 != nil)
+
+//@ iface DataSource.OpenSource
+//@ ensures iff(result1 == nil, result0 != nil)
